@@ -37,10 +37,15 @@ def gen_class(rnd, i):
     lines = lines[:lines.index(f"class K{i}:") + 1] + body
     if dep and group: lines.append(f"    deps = dependent_required([{fields[0][0]}, {fields[1][0]}])")      # each requires the other
     elif dep: lines.append(f"    deps = dependent_required({{{fields[0][0]}: [{fields[1][0]}]}})")
-    if val:
+    val2 = len(fields) >= 2 and rnd.random() < 0.3
+    if val2:
+        for k in (0, 1):
+            fn = fields[-1 - k][0]
+            lines += [f"    @validator({fn!r})", f"    def check_f{k}(self):", f"        if self.{fn} == 13:", f"            raise ValidationError(['bad{k}'])"]
+    if val and not val2:
         tgt = fields[-1][0]
         lines += ["    @validator", "    def check(self):", f"        if self.{tgt} == 13:", f"            yield ({tgt!r},), 'thirteen'" if False else f"            yield (get_alias(self).{tgt},), 'thirteen'"]
-    return {"cls": f"K{i}", "src": lines, "fields": fields, "ca": ca, "dep": dep, "val": val, "group": group}
+    return {"cls": f"K{i}", "src": lines, "fields": fields, "ca": ca, "dep": dep, "val": val and not val2, "group": group, "val2": val2}
 
 
 def spec_name(n, al, ov, ca, dyn):
@@ -70,6 +75,10 @@ def observe(cls, c, dyn, want):
         views["deserialize.accepts"] = want if back == obj else "WRONG VALUE"
         try: deserialize(cls, {k: "x" for k in want}, aliaser=dyn); views["error.loc"] = "ACCEPTED"
         except ValidationError as e: views["error.loc"] = sorted({x["loc"][0] for x in e.errors if x["loc"]})
+        if c.get("val2"):
+            d = {k: i for i, k in enumerate(want)}; d[want[-1]] = 13; d[want[-2]] = 13
+            try: deserialize(cls, d, aliaser=dyn); views["validators.loc"] = "ACCEPTED"
+            except ValidationError as e: views["validators.loc"] = (sorted(x["loc"] for x in e.errors), sorted([[want[-1]], [want[-2]]]))
         if c["val"]:
             d = {k: i for i, k in enumerate(want)}; d[want[-1]] = 13
             try: deserialize(cls, d, aliaser=dyn); views["validator.loc"] = "ACCEPTED"
@@ -117,7 +126,7 @@ def run(prop, seed, budget, ctx):
             if len(samples) < 3 and nontriv: samples.append({"class": c["src"], "aliaser": dn, "external_names": want, "views": {k: v if not isinstance(v, tuple) else v[0] for k, v in views.items()}})
             if bad:
                 for k in bad: hist["bad:" + k] += 1
-                failures.append({"kind": "P", "k_ok": True, "cls": c["cls"], "src": c["src"], "fields": c["fields"], "ca": c["ca"], "dep": c["dep"], "val": c["val"], "group": c["group"],
+                failures.append({"kind": "P", "k_ok": True, "cls": c["cls"], "src": c["src"], "fields": c["fields"], "ca": c["ca"], "dep": c["dep"], "val": c["val"], "group": c["group"], "val2": c.get("val2"),
                                  "aliaser": dn, "external_names": want, "bad_views": bad, "why": ["views-disagree-on-the-external-name:" + ",".join(sorted(bad))]})
     return {"evaluations": evaluations, "distinct_nontrivial": len(distinct),
             "rule": "generated dataclasses (1-4 fields from a pool with snake_case, camelCase, a keyword-like name, a $-prefixed alias; override=False; "
@@ -141,7 +150,7 @@ def replay(prop, case, ctx):
     from apischema.utils import to_camel_case
     DYN = {"identity": (lambda s: s), "camel": to_camel_case, "custom": (lambda s: s + "_")}
     mod = build_module(HEADER + ["from apischema.objects import get_alias", ""] + case["src"], "aliasreplay")
-    c = {k: case.get(k) for k in ("cls", "src", "fields", "ca", "dep", "val", "group")}; c["fields"] = [tuple(f) for f in c["fields"]]
+    c = {k: case.get(k) for k in ("cls", "src", "fields", "ca", "dep", "val", "group", "val2")}; c["fields"] = [tuple(f) for f in c["fields"]]
     views = observe(getattr(mod, case["cls"]), c, DYN[case["aliaser"]], case["external_names"])
     bad = [k for k in case["bad_views"] if k in views and json.dumps(views[k], default=list) == json.dumps(case["bad_views"][k]["got"], default=list)]
     return {"views": {k: (v[0] if isinstance(v, tuple) else v) for k, v in views.items()}, "external_names": case["external_names"], "fails": bool(bad) or any(k in views for k in case["bad_views"])}
